@@ -484,7 +484,7 @@ Section FailSound.
     end.
   Proof.
     intros u1 u2 t f _. rewrite !handleError_snd. subst c1 c2. cbn [c_fail with_fail].
-    rewrite orb_true_r. destruct (f || false); exact I.
+    rewrite orb_true_r. destruct (f || false); [exact I|split; exact I].
   Qed.
 
   Lemma PR_sound p1 p2 u : PR vtrue etrue True evtrue p1 p2 -> p1 = PUrl u -> exists u', p2 = PUrl u' /\ eqv u u'.
@@ -536,3 +536,201 @@ Print Assumptions fail_sound_gen_ParseRef.
 Print Assumptions fail_sound.
 Print Assumptions fail_sound_UrlParse.
 Print Assumptions fail_sound_ParseRef.
+
+(* ====================================================================================== *)
+(* T9: fail mode accepts exactly the inputs for which reporting mode records nothing         *)
+(* ====================================================================================== *)
+Section FailExact.
+  Variable idna : str -> str * bool.
+  Variable c : cfg.
+
+  Let cB := with_fail (with_report c false) true.    (* fail-on-validation-error, not reporting *)
+  Let cA := with_fail (with_report c true) false.    (* reporting, not failing *)
+
+  Definition vempty2 : list verr -> list verr -> Prop := fun _ v2 => v2 = [].
+  Definition evnonempty : list verr -> Prop := fun v => v <> [].
+
+  Lemma fe_ag : cagree cB cA. Proof. apply cagree_fail_report. Qed.
+
+  Lemma fe_EP : forall u t f e, snd (handleError cB u t f) = Some e -> etrue (fst (handleError cB u t f)) e.
+  Proof. intros; exact I. Qed.
+
+  Lemma fe_ev : forall u t f, evnonempty (u_verrs u) -> evnonempty (u_verrs (fst (handleError cA u t f))).
+  Proof.
+    intros u t f _. rewrite handleError_fst. subst cA. cbn [c_report with_fail with_report u_verrs set_verrs].
+    unfold evnonempty. destruct (u_verrs u); discriminate.
+  Qed.
+
+  Lemma fe_he : forall u1 u2 t f, UR vempty2 u1 u2 ->
+    match snd (handleError cB u1 t f), snd (handleError cA u2 t f) with
+    | None, None => vempty2 (u_verrs (fst (handleError cB u1 t f))) (u_verrs (fst (handleError cA u2 t f)))
+    | Some _, Some _ => True
+    | Some _, None => True /\ evnonempty (u_verrs (fst (handleError cA u2 t f)))
+    | None, Some _ => False
+    end.
+  Proof.
+    intros u1 u2 t f _. rewrite !handleError_snd. subst cB. cbn [c_fail with_fail].
+    rewrite orb_true_r. destruct (f || c_fail cA); [exact I|]. split; [exact I|].
+    rewrite handleError_fst. subst cA. cbn [c_report with_fail with_report u_verrs set_verrs].
+    unfold evnonempty. destruct (u_verrs u2); discriminate.
+  Qed.
+
+  Lemma PR_exact p1 p2 :
+    PR vempty2 etrue True evnonempty p1 p2 ->
+    (exists u, p1 = PUrl u) <-> (exists u, p2 = PUrl u /\ u_verrs u = []).
+  Proof.
+    intros H. split.
+    - intros [u ->]. cbn in H. destruct p2 as [u2| | | |]; try contradiction.
+      exists u2. split; [reflexivity|apply H].
+    - intros [u [-> HV]]. destruct p1 as [u1|e1| | |]; cbn in H; try discriminate.
+      + exists u1; reflexivity.
+      + destruct H as [_ [[_ HS]|HX]]; [|discriminate]. cbn in HS. unfold evnonempty in HS. contradiction.
+  Qed.
+
+  Theorem fail_exact i :
+    (exists u, Parse idna cB i = PUrl u) <-> (exists u, Parse idna cA i = PUrl u /\ u_verrs u = []).
+  Proof.
+    apply PR_exact, (@Parse_rel idna cB cA fe_ag vempty2 etrue True evnonempty fe_EP fe_he fe_ev). reflexivity.
+  Qed.
+
+  (* with a base: what the base has recorded does not matter (it is cloned) *)
+  Theorem fail_exact_UrlParse b1 b2 ref : eqv b1 b2 ->
+    (exists u, UrlParse idna cB b1 ref = PUrl u) <->
+    (exists u, UrlParse idna cA b2 ref = PUrl u /\ u_verrs u = []).
+  Proof.
+    intros HB.
+    apply PR_exact, (@UrlParse_rel idna cB cA fe_ag vempty2 etrue True evnonempty fe_EP fe_he fe_ev);
+      [reflexivity|exact HB].
+  Qed.
+
+  (* -> also holds for ParseRef *)
+  Theorem fail_exact_ParseRef_partial raw ref :
+    (exists u, ParseRef idna cB raw ref = PUrl u) ->
+    (exists u, ParseRef idna cA raw ref = PUrl u /\ u_verrs u = []).
+  Proof.
+    pose proof (@ParseRef_rel idna cB cA fe_ag vempty2 etrue True evtrue fe_EP) as H.
+    assert (he : forall u1 u2 t f, UR vempty2 u1 u2 ->
+      match snd (handleError cB u1 t f), snd (handleError cA u2 t f) with
+      | None, None => vempty2 (u_verrs (fst (handleError cB u1 t f))) (u_verrs (fst (handleError cA u2 t f)))
+      | Some _, Some _ => True
+      | Some _, None => True /\ evtrue (u_verrs (fst (handleError cA u2 t f)))
+      | None, Some _ => False
+      end).
+    { intros u1 u2 t f HU. pose proof (fe_he t f HU) as G.
+      destruct (snd (handleError cB u1 t f)), (snd (handleError cA u2 t f)); try exact G. split; exact I. }
+    specialize (H he (evtrue_ev cA) raw ref eq_refl (fun _ => I)).
+    intros [u Hu]. rewrite Hu in H. cbn in H.
+    destruct (ParseRef idna cA raw ref) as [u2| | | |]; try contradiction.
+    exists u2. split; [reflexivity|apply H].
+  Qed.
+End FailExact.
+Print Assumptions fail_exact.
+Print Assumptions fail_exact_UrlParse.
+Print Assumptions fail_exact_ParseRef_partial.
+
+(* ParseRef: the <- direction FAILS.  ParseRef parses the base, then parses the reference against a
+   clone of the base, and the clone (Url.Clone in the Go code) drops what the base parse recorded:
+   the URL returned in reporting mode shows no validation error although fail mode rejects the base. *)
+Definition fail_exact_ParseRef_full : Prop :=
+  forall (idna : str -> str * bool) (c : cfg) (raw ref : str),
+    (exists u, ParseRef idna (with_fail (with_report c false) true) raw ref = PUrl u) <->
+    (exists u, ParseRef idna (with_fail (with_report c true) false) raw ref = PUrl u /\ u_verrs u = []).
+
+Definition idna0 (s : str) : str * bool := (s, false).      (* a dummy oracle for the examples *)
+Definition ex_raw : str := [104;116;116;112;58;97].         (* "http:a" : missing "//" is a validation error *)
+Definition ex_ref : str := [98].                            (* "b" *)
+Definition ex_ref_url : url :=
+  Eval vm_compute in
+    match ParseRef idna0 (with_fail (with_report default_cfg true) false) ex_raw ex_ref with
+    | PUrl u => u | _ => empty_url [] end.
+
+Theorem fail_exact_ParseRef_refuted :
+  exists idna c raw ref,
+    (exists u, ParseRef idna (with_fail (with_report c true) false) raw ref = PUrl u /\ u_verrs u = []) /\
+    ~ (exists u, ParseRef idna (with_fail (with_report c false) true) raw ref = PUrl u).
+Proof.
+  exists idna0, default_cfg, ex_raw, ex_ref. split.
+  - exists ex_ref_url. split; vm_compute; reflexivity.
+  - intros [u H]. vm_compute in H. discriminate.
+Qed.
+Print Assumptions fail_exact_ParseRef_refuted.
+
+Lemma fail_exact_ParseRef_full_false : ~ fail_exact_ParseRef_full.
+Proof.
+  intros H. destruct fail_exact_ParseRef_refuted as (idna & c & raw & ref & H1 & H2).
+  apply H2, H, H1.
+Qed.
+
+(* ====================================================================================== *)
+(* Examples: the premises are satisfiable and the statements are not vacuous                 *)
+(* ====================================================================================== *)
+Definition ex_i1 : str := [104;116;116;112;58;47;47;48;120;55;102;46;49;47;97;32;98].   (* "http://0x7f.1/a b" *)
+Definition ex_i2 : str := [104;116;116;112;58;47;47;49;46;46;50;47].                    (* "http://1..2/" *)
+Definition ex_i3 : str := [104;116;116;112;58;47;47;97;47].                             (* "http://a/" *)
+
+Definition ex_u1_report : url :=
+  Eval vm_compute in match Parse idna0 (with_report default_cfg true) ex_i1 with PUrl u => u | _ => empty_url [] end.
+Definition ex_u1_plain : url :=
+  Eval vm_compute in match Parse idna0 (with_report default_cfg false) ex_i1 with PUrl u => u | _ => empty_url [] end.
+
+(* T1: a pair of related, different records *)
+Example ex_eqv : eqv ex_u1_report ex_u1_plain /\ ex_u1_report <> ex_u1_plain.
+Proof. split; [vm_compute; reflexivity|]. intros H. apply (f_equal u_verrs) in H. vm_compute in H. discriminate. Qed.
+
+(* T5: reporting records two entries on this input, and changes nothing else *)
+Example ex_report :
+  Parse idna0 (with_report default_cfg true) ex_i1 = PUrl ex_u1_report /\
+  Parse idna0 (with_report default_cfg false) ex_i1 = PUrl ex_u1_plain /\
+  length (u_verrs ex_u1_report) = 2%nat /\ u_verrs ex_u1_plain = [].
+Proof. repeat split; vm_compute; reflexivity. Qed.
+
+(* T6: premise and conclusion on a concrete input; and the premise is needed *)
+Example ex_failure :
+  c_fail default_cfg = false /\
+  exists e, Parse idna0 default_cfg ex_i2 = PErr e /\ e_type e = IPv4NonNumericPart /\ e_failure e = true.
+Proof. split; [reflexivity|]. eexists. repeat split; vm_compute; reflexivity. Qed.
+
+Example returned_error_is_failure_needs_premise :
+  exists e, Parse idna0 (with_fail default_cfg true) ex_i1 = PErr e /\ e_failure e = false.
+Proof. eexists. split; vm_compute; reflexivity. Qed.
+
+(* T7: entries are recorded, all of them non-fatal; and a fatal entry IS recorded on the record that a
+   failed parse leaves behind (so the statement is about successful parses only) *)
+Example ex_nonfatal :
+  Parse idna0 (with_report default_cfg true) ex_i1 = PUrl ex_u1_report /\
+  u_verrs ex_u1_report <> [] /\ Forall nonfatal (u_verrs ex_u1_report).
+Proof.
+  split; [vm_compute; reflexivity|]. split; [vm_compute; discriminate|].
+  vm_compute. repeat constructor.
+Qed.
+
+Example ex_fatal_recorded_on_failure :
+  exists u e, BasicParser idna0 (with_report default_cfg true) ex_i2 None None None = RErr u e /\
+              Exists (fun x => e_failure x = true) (u_verrs u).
+Proof. eexists. eexists. split; [vm_compute; reflexivity|]. vm_compute. repeat constructor. Qed.
+
+(* T8: fail mode accepts ex_i3; it rejects ex_i1, which the default parser accepts (no converse) *)
+Example ex_fail_sound :
+  (exists u, Parse idna0 (with_fail default_cfg true) ex_i3 = PUrl u) /\
+  (exists e, Parse idna0 (with_fail default_cfg true) ex_i1 = PErr e) /\
+  (exists u, Parse idna0 (with_fail default_cfg false) ex_i1 = PUrl u).
+Proof. repeat split; eexists; vm_compute; reflexivity. Qed.
+
+(* T9: both sides on an accepted and on a rejected input *)
+Example ex_fail_exact :
+  (exists u, Parse idna0 (with_fail (with_report default_cfg false) true) ex_i3 = PUrl u) /\
+  (exists u, Parse idna0 (with_fail (with_report default_cfg true) false) ex_i3 = PUrl u /\ u_verrs u = []) /\
+  (exists e, Parse idna0 (with_fail (with_report default_cfg false) true) ex_i1 = PErr e) /\
+  (exists u, Parse idna0 (with_fail (with_report default_cfg true) false) ex_i1 = PUrl u /\ u_verrs u <> []).
+Proof.
+  split; [eexists; vm_compute; reflexivity|].
+  split; [eexists; split; vm_compute; reflexivity|].
+  split; [eexists; vm_compute; reflexivity|].
+  exists ex_u1_report. split; [vm_compute; reflexivity|vm_compute; discriminate].
+Qed.
+
+(* the generated option records are the default record with one option switched on *)
+Example ex_options :
+  opt_WithReportValidationErrors = with_report default_cfg true /\
+  opt_WithFailOnValidationError = with_fail default_cfg true.
+Proof. split; reflexivity. Qed.
